@@ -5,7 +5,7 @@ import json, os, re, shutil, glob
 SRC = '/tmp/seed_out'
 DST = '/verif/seeded'
 NEEDS = json.load(open('/verif/tools/seed_needs.json'))
-for d in sorted(glob.glob(SRC + '/C??/[ab]')):
+for d in sorted(glob.glob(SRC + '/C??/[ab]') + glob.glob(SRC + '/C??2/[ab]')):
     pid, x = d.split('/')[-2:]
     cf = os.path.join(d, 'confirm.json')
     if not os.path.exists(cf):
@@ -23,6 +23,7 @@ for d in sorted(glob.glob(SRC + '/C??/[ab]')):
         print('NOT CONFIRMED', pid, x, c)
         continue
     sid = f'{pid}{x}'
+    pid = pid[:3]
     out = os.path.join(DST, sid)
     os.makedirs(out, exist_ok=True)
     for f in ('patch.diff', 'demo.py', 'notes.md'):
